@@ -6,7 +6,8 @@ EXPLANATION = ("C15: (R1) the line-terminator protocol of get_line (scan predica
                "merge, progress arithmetic, strict finished test, piece taken before the merge); (R2) unit discipline of "
                "get_line_slice (UTF-16 counter vs UTF-8 byte offsets, non-panicking final slice, overflow-free col+span); "
                "(R3) iterator and line_count plumbing; (R4) monotone state (answers cannot depend on request order); "
-               "(R5) panic-freedom of the line API.")
+               "(R5) panic-freedom of the line API."
+               " (R6) the crate's iterators implement `next` only.")
 NOT_DECIDED = "that line i equals the i-th piece of the text as a value-level statement."
 
 RULES = {
